@@ -297,6 +297,7 @@ pub fn run_case(case_seed: u64, shard: &mut Shard, trace: bool) -> Option<Failur
     let mut n_created = 0u8;
     let mut accessed: BTreeSet<Key> = BTreeSet::new(); // loaded into the track by get/set/remove/drain
     let mut blind: BTreeSet<Key> = BTreeSet::new(); // loaded into the track by a set (never read before): stays write-only
+    let mut force_hidden: BTreeSet<Key> = BTreeSet::new(); // force-written while in that hidden state (second revert restores it)
     let mut blind_reverted: BTreeSet<Key> = BTreeSet::new(); // blind writes of database-present substates that were reverted
     let mut io = IoCount::default();
     let mut log: Vec<String> = vec![];
@@ -334,10 +335,11 @@ pub fn run_case(case_seed: u64, shard: &mut Shard, trace: bool) -> Option<Failur
             let had_force = !model.snap.is_empty();
             real!(i, "revert", track.revert_non_force_write_changes());
             for k in blind.iter() {
-                if model.base.contains_key(k) && !model.snap.contains_key(k) {
+                if model.base.contains_key(k) && (!model.snap.contains_key(k) || force_hidden.contains(k)) {
                     blind_reverted.insert(k.clone());
                 }
             }
+            force_hidden.clear();
             model.revert();
             dead_new.append(&mut live_new);
             accessed.retain(|k| !dead_new.contains(&k.0));
@@ -576,6 +578,11 @@ pub fn run_case(case_seed: u64, shard: &mut Shard, trace: bool) -> Option<Failur
                         });
                         log.push(format!("{i}: force_write {}", key_str(&k)));
                         beh("force", 0);
+                        if blind_reverted.contains(&k) {
+                            force_hidden.insert(k.clone());
+                        } else {
+                            force_hidden.remove(&k);
+                        }
                         model.force_write(&k);
                     }
                 }
